@@ -127,7 +127,7 @@ fn gen_scenario(rng: &mut StdRng, n_base: usize, n_add: usize, n_del: usize) -> 
     }
     let opts = BuildOpts {
         n_trees: Some([1usize, 3, 5][rng.gen_range(0..3)]),
-        split_after: Some(rng.gen_range(3..16)),
+        split_after: Some(if rng.gen_bool(0.25) { rng.gen_range(20..60) } else { rng.gen_range(3..16) }),
         memory: if rng.gen_bool(0.3) { Some(0) } else { None },
         threads: if rng.gen_bool(0.5) { 1 } else { 4 },
         rng_seed: rng.gen_range(0..1 << 40),
@@ -522,9 +522,18 @@ pub fn run(args: &Args) {
         let res = guarded(|| match kind {
             0 => {
                 // mostly a deep forest with pending updates; sometimes an index that fits one bucket
-                let sc = if *param % 9 == 8 { gen_scenario(&mut rng, 3, 2, 1) } else { gen_scenario(&mut rng, 120, 40, 30) };
+                // also: few pending updates (no bucket overflows, so the last polls of the build are the
+                // write-back loops), deletions only, insertions only
+                let sc = match *param % 9 {
+                    8 => gen_scenario(&mut rng, 3, 2, 1),
+                    7 => gen_scenario(&mut rng, 120, 2, 1),
+                    6 => gen_scenario(&mut rng, 150, 1, 0),
+                    5 => gen_scenario(&mut rng, 120, 0, 12),
+                    4 => gen_scenario(&mut rng, 200, 12, 0),
+                    _ => gen_scenario(&mut rng, 120, 40, 30),
+                };
                 if samples.len() < 1 {
-                    samples.push(J::obj().set("kind", J::s("cancel-at-every-poll")).set("metric", J::s(sc.metric.short())).set("dims", J::i(sc.dims as u64)).set("base_items", J::i(120)).set("pending", J::s("40 adds/overwrites, 30 deletes")).set("build", J::s(sc.opts.describe())));
+                    samples.push(J::obj().set("kind", J::s("cancel-at-every-poll")).set("metric", J::s(sc.metric.short())).set("dims", J::i(sc.dims as u64)).set("base_items", J::i(sc.base.len() as u64)).set("pending", J::s(format!("{} adds/overwrites, {} deletes", sc.pending_add.len(), sc.pending_del.len()))).set("build", J::s(sc.opts.describe())));
                 }
                 with_metric!(sc.metric, D, case_cancel::<D>(&sc, stride, &mut c, &mut sigs))
             }
@@ -560,7 +569,7 @@ pub fn run(args: &Args) {
         .set("counters", c.to_json())
         .set("sigs", J::Arr(sigs.iter().map(|s| J::s(format!("{s:x}"))).collect()))
         .set("samples", J::Arr(samples))
-        .set("rule", J::s("fault enumeration: (a) per scenario (built index + pending insertions/overwrites/deletions) the cancellation callback answers true from its n-th call for n over the polls of a complete build (every n thorough; first/last 40 and every 7th quick), pools of 1 and 4 threads; (b) 18 LMDB map sizes from 64 KiB to 8 MiB around a ~1-3 MiB workload; (c) temp dir missing / a regular file / temp-file writes failing under RLIMIT_FSIZE; (d) fd count and temp-dir listing after each of hundreds of successful, cancelled and failed builds per process; non-trivial+distinct = distinct fault outcomes (MainStep at cancellation, map-full site, temp fault kind)"))
+        .set("rule", J::s("fault enumeration: (a) per scenario (built index of 3-200 items + pending insertions/overwrites/deletions from none to 40+30, forests that must grow, shrink or stay) the cancellation callback answers true from its n-th call for n over the polls of a complete build (every n thorough; first/last 40 and every 7th quick), pools of 1 and 4 threads; (b) 18 LMDB map sizes from 64 KiB to 8 MiB around a ~1-3 MiB workload; (c) temp dir missing / a regular file / temp-file writes failing under RLIMIT_FSIZE; (d) fd count and temp-dir listing after each of hundreds of successful, cancelled and failed builds per process; non-trivial+distinct = distinct fault outcomes (MainStep at cancellation, map-full site, temp fault kind)"))
         .set("required", J::Arr(["cancel_points_enumerated", "cancel_reported", "leak_probes", "tmp_tmpdir_missing", "tmp_tmpdir_is_a_file", "mapsize_ample", "mapsize_retry_ok"].iter().map(|s| J::s(*s)).collect()))
         .set("wall_s", J::Num(t0.elapsed().as_secs_f64()));
     emit("SUMMARY", &j);
